@@ -51,7 +51,7 @@ theorem step_deeper {w w' : PWorld} {t : Oid} {m : Name} {specs : List PathSpec}
   rw [hw1w, hfilter] at hdisp
   obtain ⟨u', c1, c2, c3, c4, c5⟩ := callWatcherP_installed (store w o ob p v) t m specs x p old v hs1
     (fun y hy => (hi.owned y hy).2.2) hi.dynKeys ⟨(hi.owned x hxw).1, (hi.owned x hxw).2.1⟩ (hi.cbs x hxw)
-  simp only [dispatchP, c1, Except.ok.injEq] at hdisp
+  simp only [dispatchP, c1, ite_self, Except.ok.injEq] at hdisp
   subst hdisp
   have hspecT := fun s (hs' : s ∈ specs) (h : (o, p) ∈ depsFrom w t s.path s.leaf) =>
     touched_spec (hsim s hs') hot h hgold hgp
@@ -256,7 +256,7 @@ theorem new_other_installed {w w' : PWorld} {cls : Nat} {vals : List (Name × Va
     Installed w' t m specs ∧ w'.log = w.log ∧ (∀ s ∈ specs, chainObjsFrom w' t s.path = chainObjsFrom w t s.path) := by
   obtain ⟨c, hc, hud⟩ := newObj_ok hnew
   have hg := updateDeps_graph hud
-  obtain ⟨ct, hct, _⟩ := hs.tcls
+  obtain ⟨ct, _, hct, _⟩ := hs.tcls
   have htl : t < w.objs.length := classOf_lt hct
   have hne : w.objs.length ≠ t := Nat.ne_of_gt htl
   have hcls : classOf { w with objs := w.objs ++ [⟨cls, vals⟩] } w.objs.length = some c := by
@@ -311,7 +311,9 @@ def leafIntB (w : PWorld) (n : Name) : Bool :=
 
 def scopeB (w : PWorld) (t : Oid) (m : Name) (specs : List PathSpec) : Bool :=
   (match classOf w t with
-   | some ct => decide (ct.methods = [⟨m, specs⟩])
+   | some ct => (match ct.methods with
+                 | [m0] => m0.name == m && decide (m0.specs = specs)
+                 | _ => false)
    | none => false) &&
   (List.range w.objs.length).all (fun o => o == t ||
     match classOf w o with
@@ -359,7 +361,17 @@ theorem scopeB_spec {w : PWorld} {t : Oid} {m : Name} {specs : List PathSpec} (h
   refine ⟨?_, ?_, by simpa [List.isEmpty_iff] using h3, ?_, ?_, ?_, ?_⟩
   · cases hc : classOf w t with
     | none => rw [hc] at h1; simp at h1
-    | some ct => rw [hc] at h1; exact ⟨ct, rfl, by simpa using h1⟩
+    | some ct =>
+      rw [hc] at h1
+      simp only at h1
+      split at h1
+      · rename_i m0 hm0
+        simp only [Bool.and_eq_true, beq_iff_eq, decide_eq_true_eq] at h1
+        refine ⟨ct, m0.raises, rfl, ?_⟩
+        rw [hm0]
+        cases m0
+        simp_all
+      · simp at h1
   · intro o c ho hc
     have hlt : o < w.objs.length := classOf_lt hc
     have := (List.all_eq_true.1 h2) o (List.mem_range.2 hlt)
